@@ -427,7 +427,7 @@ func genFATHistory(t *rapid.T, o fatGenOpts) histCase {
 			n := m.Lookup(p)
 			n.Data = nil
 			n.WriteAt(0, ct.Bytes())
-			c.Ops = append(c.Ops, fsOp{K: "trunc", P: spell(p), D: ct})
+			c.Ops = append(c.Ops, fsOp{K: "trunc", P: spell(p), D: ct, Long: rapid.IntRange(0, 2).Draw(t, "truncAppend") == 0})
 		case "rename":
 			p := rapid.SampledFrom(files).Draw(t, "rfile")
 			dir := ""
@@ -953,6 +953,9 @@ func (x *fatRun) exec(op fsOp) {
 			flag |= os.O_APPEND
 		case "trunc":
 			flag |= os.O_TRUNC
+			if op.Long {
+				flag |= os.O_APPEND // both flags together: the file is emptied first, the data then starts at offset 0
+			}
 			x.sawRelease = true
 		case "write":
 			seek = op.Off
